@@ -436,8 +436,8 @@ theorem runEdge_spec (N : Num ν) (na : Nat) (cmd : Char) (st : St ν) (m : PM (
     exact .edges _ hns sp.needEnd (by simp [St.after, sp.needStart, hns]) sp.edges
   · simp only [StepSpec, List.map_nil]; exact .plain
 
-theorem map_quad_edges (qs : List (Pt ν × Pt ν × List ν)) :
-    ∀ c ∈ qs.map (fun q => (Call.quad q.1 q.2.1 q.2.2 : PCall ν)), isEdge c = true := by
+theorem map_quad_edges {β : Type} (qs : List β) (f g : β → Pt ν) (h : β → List ν) :
+    ∀ c ∈ qs.map (fun q => (Call.quad (f q) (g q) (h q) : PCall ν)), isEdge c = true := by
   intro c hc
   simp only [List.mem_map] at hc
   obtain ⟨q, _, rfl⟩ := hc
@@ -469,7 +469,7 @@ theorem runArc_spec (N : Num ν) (na : Nat) (cmd : Char) (st : St ν) (s1 : Src)
           rw [← sp.1]; exact hoob.2
         · simp only [StepSpec, emitAt_snd]
           refine ⟨by omega, ni.1, ni.2, fun _ => sp.2, ?_⟩
-          exact .edges _ hns rfl hns (map_quad_edges _)
+          exact .edges _ hns rfl hns (map_quad_edges _ _ _ _)
   · simp only [StepSpec, List.map_nil]; exact .plain
 
 theorem runMove_spec (N : Num ν) (na : Nat) (cmd : Char) (st : St ν) (s1 : Src) (bound : Nat)
@@ -1159,23 +1159,37 @@ theorem lexNum_list (s : Src) :
   have h3 := lexExp_list (lexFrac (lexMant s).2).2
   simp only [lexNum, lexNumL, h1.1, h2.1, h3.1, h3.2, h2.2, h1.2, and_self]
 
-/-- what the round trip needs from the number printer `pn` (`<f32 as Debug>::fmt`) -/
-structure PrintOK (N : Num ν) (pn : ν → List Char) : Prop where
-  /-- a printed number is accepted by `f32::from_str` … -/
+/-- the lexical half of what the round trip needs from the number printer `pn`
+(`<f32 as Debug>::fmt`): printed numbers are tokens the parser accepts -/
+structure TokenOK (pn : ν → List Char) : Prop where
+  /-- a printed number is accepted by `f32::from_str` -/
   valid : ∀ x, validF32 (pn x) = true
-  /-- … and reads back as the same value -/
-  value : ∀ x, N.ofLexeme (pn x) = x
   /-- it does not start with a separator -/
   head : ∀ x, ∃ c l, pn x = c :: l ∧ isSep c = false
   /-- followed by a space or the end of the text it is exactly one lexer token -/
   token : ∀ x rest, (rest = [] ∨ ∃ r, rest = ' ' :: r) → lexNumL (pn x ++ rest) = (pn x, rest)
 
+/-- … and the numeric half: a printed number reads back as the same value -/
+structure PrintOK (N : Num ν) (pn : ν → List Char) : Prop extends TokenOK pn where
+  value : ∀ x, N.ofLexeme (pn x) = x
+
+/-- the value read back from a printed number, and its action on points and calls -/
+def rv (N : Num ν) (pn : ν → List Char) (x : ν) : ν := N.ofLexeme (pn x)
+def rvPt (N : Num ν) (pn : ν → List Char) (p : Pt ν) : Pt ν := (rv N pn p.1, rv N pn p.2)
+def rvCall (N : Num ν) (pn : ν → List Char) : PCall ν → PCall ν
+  | Call.begin p a => Call.begin (rvPt N pn p) (a.map (rv N pn))
+  | Call.line p a => Call.line (rvPt N pn p) (a.map (rv N pn))
+  | Call.quad c p a => Call.quad (rvPt N pn c) (rvPt N pn p) (a.map (rv N pn))
+  | Call.cubic c1 c2 p a =>
+    Call.cubic (rvPt N pn c1) (rvPt N pn c2) (rvPt N pn p) (a.map (rv N pn))
+  | Call.end_ b => Call.end_ b
+
 /-- text that can follow a printed number: nothing, or something starting with a space -/
 def Boundary (rest : List Char) : Prop := rest = [] ∨ ∃ r, rest = ' ' :: r
 
-theorem parseNumber_print (N : Num ν) (pn : ν → List Char) (hp : PrintOK N pn) (x : ν)
+theorem parseNumber_print (N : Num ν) (pn : ν → List Char) (hp : TokenOK pn) (x : ν)
     (rest : List Char) (hb : Boundary rest) (s : Src) (hs : s.inp = ' ' :: (pn x ++ rest)) :
-    ∃ s', parseNumber N s = .ok x s' ∧ s'.inp = rest := by
+    ∃ s', parseNumber N s = .ok (rv N pn x) s' ∧ s'.inp = rest := by
   obtain ⟨c, l, hcl, hsep⟩ := hp.head x
   have hskip : s.skipWs.inp = pn x ++ rest := by
     have : isSep ' ' = true := by decide
@@ -1184,7 +1198,7 @@ theorem parseNumber_print (N : Num ν) (pn : ν → List Char) (hp : PrintOK N p
   rw [hskip, hp.token x rest hb] at hl
   refine ⟨(lexNum s.skipWs).2, ?_, hl.2⟩
   unfold parseNumber
-  simp only [hl.1, hp.valid x, if_true, hp.value x]
+  simp only [hl.1, hp.valid x, if_true, rv]
 
 theorem bind_of_ok {α β} {m : PM α} {f : α → PM β} {s s1 : Src} {a : α} (h : m s = .ok a s1) :
     (m >>= f) s = f a s1 := by
@@ -1198,9 +1212,9 @@ theorem printAttrs_boundary (pn : ν → List Char) (a : List ν) (rest : List C
   | nil => simpa [printAttrs] using hb
   | cons x r => exact Or.inr ⟨_, by simp [printAttrs]; rfl⟩
 
-theorem parsePoint_print (N : Num ν) (pn : ν → List Char) (hp : PrintOK N pn) (p cur : Pt ν)
+theorem parsePoint_print (N : Num ν) (pn : ν → List Char) (hp : TokenOK pn) (p cur : Pt ν)
     (rest : List Char) (hb : Boundary rest) (s : Src) (hs : s.inp = printPt pn p ++ rest) :
-    ∃ s', parsePoint N false cur s = .ok p s' ∧ s'.inp = rest := by
+    ∃ s', parsePoint N false cur s = .ok (rvPt N pn p) s' ∧ s'.inp = rest := by
   have hs' : s.inp = ' ' :: (pn p.1 ++ (' ' :: (pn p.2 ++ rest))) := by
     simp [hs, printPt]
   obtain ⟨s1, h1, hi1⟩ := parseNumber_print N pn hp p.1 _ (boundary_cons _) s hs'
@@ -1208,11 +1222,11 @@ theorem parsePoint_print (N : Num ν) (pn : ν → List Char) (hp : PrintOK N pn
   refine ⟨s2, ?_, hi2⟩
   unfold parsePoint
   rw [bind_of_ok h1, bind_of_ok h2]
-  simp [pure, PM.pure, relX, relY]
+  simp [pure, PM.pure, relX, relY, rvPt]
 
-theorem parseAttrs_print (N : Num ν) (pn : ν → List Char) (hp : PrintOK N pn) (a : List ν)
+theorem parseAttrs_print (N : Num ν) (pn : ν → List Char) (hp : TokenOK pn) (a : List ν)
     (rest : List Char) (hb : Boundary rest) (s : Src) (hs : s.inp = printAttrs pn a ++ rest) :
-    ∃ s', parseAttrs N a.length s = .ok a s' ∧ s'.inp = rest := by
+    ∃ s', parseAttrs N a.length s = .ok (a.map (rv N pn)) s' ∧ s'.inp = rest := by
   induction a generalizing s with
   | nil => exact ⟨s, rfl, by simpa [printAttrs] using hs⟩
   | cons x r ih =>
@@ -1225,10 +1239,10 @@ theorem parseAttrs_print (N : Num ν) (pn : ν → List Char) (hp : PrintOK N pn
     rw [bind_of_ok h1, bind_of_ok h2]
     rfl
 
-theorem parseEndpoint_print (N : Num ν) (pn : ν → List Char) (hp : PrintOK N pn) (p cur : Pt ν)
+theorem parseEndpoint_print (N : Num ν) (pn : ν → List Char) (hp : TokenOK pn) (p cur : Pt ν)
     (a : List ν) (rest : List Char) (hb : Boundary rest) (s : Src)
     (hs : s.inp = printPt pn p ++ (printAttrs pn a ++ rest)) :
-    ∃ s', parseEndpoint N a.length false cur s = .ok (p, a) s' ∧ s'.inp = rest := by
+    ∃ s', parseEndpoint N a.length false cur s = .ok (rvPt N pn p, a.map (rv N pn)) s' ∧ s'.inp = rest := by
   obtain ⟨s1, h1, hi1⟩ :=
     parsePoint_print N pn hp p cur _ (printAttrs_boundary pn a rest hb) s hs
   obtain ⟨s2, h2, hi2⟩ := parseAttrs_print N pn hp a rest hb s1 hi1
@@ -1243,11 +1257,11 @@ theorem parseEndpoint_print (N : Num ν) (pn : ν → List Char) (hp : PrintOK N
 theorem cur_of_inp {s : Src} {c : Char} {r : List Char} (h : s.inp = c :: r) : s.cur = c := by
   simp [Src.cur, h]
 
-theorem step_move_print (N : Num ν) (pn : ν → List Char) (hp : PrintOK N pn) (st : St ν) (p : Pt ν)
+theorem step_move_print (N : Num ν) (pn : ν → List Char) (hp : TokenOK pn) (st : St ν) (p : Pt ν)
     (a : List ν) (rest : List Char) (hb : Boundary rest) (s : Src)
     (hs : s.inp = 'M' :: (printPt pn p ++ (printAttrs pn a ++ rest))) :
     ∃ st' s' em, step N a.length st s = .cont st' s' em ∧ s'.inp = rest ∧
-      em.map Prod.snd = (if st.needEnd then [.end_ false] else []) ++ [.begin p a] ∧
+      em.map Prod.snd = (if st.needEnd then [.end_ false] else []) ++ [.begin (rvPt N pn p) (a.map (rv N pn))] ∧
       st'.needEnd = true ∧ st'.needStart = false := by
   have hc := cur_of_inp hs
   have hadv : s.adv.inp = printPt pn p ++ (printAttrs pn a ++ rest) := by simp [adv_inp, hs]
@@ -1255,41 +1269,41 @@ theorem step_move_print (N : Num ν) (pn : ν → List Char) (hp : PrintOK N pn)
   have hal : Char.isAlpha 'M' = true := by decide
   have hlow : Char.isLower 'M' = false := by decide
   have hstep : step N a.length st s =
-      .cont ({ st with cur := p, attrs := a, first := p, needEnd := true,
+      .cont ({ st with cur := rvPt N pn p, attrs := a.map (rv N pn), first := rvPt N pn p, needEnd := true,
                        needStart := false }.after 'M') s'
-        ((if st.needEnd then emitAt s.adv [.end_ false] else []) ++ emitAt s' [.begin p a]) := by
+        ((if st.needEnd then emitAt s.adv [.end_ false] else []) ++ emitAt s' [.begin (rvPt N pn p) (a.map (rv N pn))]) := by
     have hblk : isDrawingCmd 'M' = false := by decide
     simp only [step, cmdOf, afterCmd, hc, hal, if_true, hblk, Bool.and_false, Bool.false_eq_true, if_false]
     simp [dispatchCmd, edgeCmd, runMove, hlow, h1]
   refine ⟨_, s', _, hstep, hi, ?_, rfl, rfl⟩
   cases st.needEnd <;> simp [emitAt]
 
-theorem step_line_print (N : Num ν) (pn : ν → List Char) (hp : PrintOK N pn) (st : St ν) (p : Pt ν)
+theorem step_line_print (N : Num ν) (pn : ν → List Char) (hp : TokenOK pn) (st : St ν) (p : Pt ν)
     (a : List ν) (rest : List Char) (hb : Boundary rest) (s : Src) (hns : st.needStart = false)
     (hs : s.inp = 'L' :: (printPt pn p ++ (printAttrs pn a ++ rest))) :
     ∃ st' s' em, step N a.length st s = .cont st' s' em ∧ s'.inp = rest ∧
-      em.map Prod.snd = [.line p a] ∧ st'.needEnd = st.needEnd ∧ st'.needStart = false := by
+      em.map Prod.snd = [.line (rvPt N pn p) (a.map (rv N pn))] ∧ st'.needEnd = st.needEnd ∧ st'.needStart = false := by
   have hc := cur_of_inp hs
   have hadv : s.adv.inp = printPt pn p ++ (printAttrs pn a ++ rest) := by simp [adv_inp, hs]
   obtain ⟨s', h1, hi⟩ := parseEndpoint_print N pn hp p st.cur a rest hb s.adv hadv
   have hal : Char.isAlpha 'L' = true := by decide
   have hlow : Char.isLower 'L' = false := by decide
   have hcmd : cmdL N a.length false st s.adv =
-      .ok ([.line p a], { st with cur := p, attrs := a }) s' := by
+      .ok ([.line (rvPt N pn p) (a.map (rv N pn))], { st with cur := rvPt N pn p, attrs := a.map (rv N pn) }) s' := by
     unfold cmdL; rw [bind_of_ok h1]; rfl
   have hstep : step N a.length st s =
-      .cont (({ st with cur := p, attrs := a } : St ν).after 'L') s' (emitAt s' [.line p a]) := by
+      .cont (({ st with cur := rvPt N pn p, attrs := a.map (rv N pn) } : St ν).after 'L') s' (emitAt s' [.line (rvPt N pn p) (a.map (rv N pn))]) := by
     simp only [step, cmdOf, afterCmd, hc, hal, if_true, hns, Bool.false_and, Bool.false_eq_true, if_false]
     simp [dispatchCmd, edgeCmd, runEdge, hlow, hcmd]
     try simp [hns]
   exact ⟨_, s', _, hstep, hi, by simp [emitAt], rfl, by simp [St.after, hns]⟩
 
-theorem step_quad_print (N : Num ν) (pn : ν → List Char) (hp : PrintOK N pn) (st : St ν)
+theorem step_quad_print (N : Num ν) (pn : ν → List Char) (hp : TokenOK pn) (st : St ν)
     (c p : Pt ν) (a : List ν) (rest : List Char) (hb : Boundary rest) (s : Src)
     (hns : st.needStart = false)
     (hs : s.inp = 'Q' :: (printPt pn c ++ (printPt pn p ++ (printAttrs pn a ++ rest)))) :
     ∃ st' s' em, step N a.length st s = .cont st' s' em ∧ s'.inp = rest ∧
-      em.map Prod.snd = [.quad c p a] ∧ st'.needEnd = st.needEnd ∧ st'.needStart = false := by
+      em.map Prod.snd = [.quad (rvPt N pn c) (rvPt N pn p) (a.map (rv N pn))] ∧ st'.needEnd = st.needEnd ∧ st'.needStart = false := by
   have hc := cur_of_inp hs
   have hadv : s.adv.inp = printPt pn c ++ (printPt pn p ++ (printAttrs pn a ++ rest)) := by
     simp [adv_inp, hs]
@@ -1299,23 +1313,23 @@ theorem step_quad_print (N : Num ν) (pn : ν → List Char) (hp : PrintOK N pn)
   have hal : Char.isAlpha 'Q' = true := by decide
   have hlow : Char.isLower 'Q' = false := by decide
   have hcmd : cmdQ N a.length false st s.adv =
-      .ok ([.quad c p a], { st with cur := p, attrs := a, prevQuad := some c }) s' := by
+      .ok ([.quad (rvPt N pn c) (rvPt N pn p) (a.map (rv N pn))], { st with cur := rvPt N pn p, attrs := a.map (rv N pn), prevQuad := some (rvPt N pn c) }) s' := by
     unfold cmdQ; rw [bind_of_ok h1, bind_of_ok h2]; rfl
   have hstep : step N a.length st s =
-      .cont (({ st with cur := p, attrs := a, prevQuad := some c } : St ν).after 'Q') s'
-        (emitAt s' [.quad c p a]) := by
+      .cont (({ st with cur := rvPt N pn p, attrs := a.map (rv N pn), prevQuad := some (rvPt N pn c) } : St ν).after 'Q') s'
+        (emitAt s' [.quad (rvPt N pn c) (rvPt N pn p) (a.map (rv N pn))]) := by
     simp only [step, cmdOf, afterCmd, hc, hal, if_true, hns, Bool.false_and, Bool.false_eq_true, if_false]
     simp [dispatchCmd, edgeCmd, runEdge, hlow, hcmd]
     try simp [hns]
   exact ⟨_, s', _, hstep, hi, by simp [emitAt], rfl, by simp [St.after, hns]⟩
 
-theorem step_cubic_print (N : Num ν) (pn : ν → List Char) (hp : PrintOK N pn) (st : St ν)
+theorem step_cubic_print (N : Num ν) (pn : ν → List Char) (hp : TokenOK pn) (st : St ν)
     (c1 c2 p : Pt ν) (a : List ν) (rest : List Char) (hb : Boundary rest) (s : Src)
     (hns : st.needStart = false)
     (hs : s.inp = 'C' :: (printPt pn c1 ++ (printPt pn c2 ++
       (printPt pn p ++ (printAttrs pn a ++ rest))))) :
     ∃ st' s' em, step N a.length st s = .cont st' s' em ∧ s'.inp = rest ∧
-      em.map Prod.snd = [.cubic c1 c2 p a] ∧ st'.needEnd = st.needEnd ∧
+      em.map Prod.snd = [.cubic (rvPt N pn c1) (rvPt N pn c2) (rvPt N pn p) (a.map (rv N pn))] ∧ st'.needEnd = st.needEnd ∧
       st'.needStart = false := by
   have hc := cur_of_inp hs
   have hadv : s.adv.inp = printPt pn c1 ++ (printPt pn c2 ++
@@ -1328,11 +1342,11 @@ theorem step_cubic_print (N : Num ν) (pn : ν → List Char) (hp : PrintOK N pn
   have hal : Char.isAlpha 'C' = true := by decide
   have hlow : Char.isLower 'C' = false := by decide
   have hcmd : cmdC N a.length false st s.adv =
-      .ok ([.cubic c1 c2 p a], { st with cur := p, attrs := a, prevCubic := some c2 }) s' := by
+      .ok ([.cubic (rvPt N pn c1) (rvPt N pn c2) (rvPt N pn p) (a.map (rv N pn))], { st with cur := rvPt N pn p, attrs := a.map (rv N pn), prevCubic := some (rvPt N pn c2) }) s' := by
     unfold cmdC; rw [bind_of_ok h1, bind_of_ok h2, bind_of_ok h3]; rfl
   have hstep : step N a.length st s =
-      .cont (({ st with cur := p, attrs := a, prevCubic := some c2 } : St ν).after 'C') s'
-        (emitAt s' [.cubic c1 c2 p a]) := by
+      .cont (({ st with cur := rvPt N pn p, attrs := a.map (rv N pn), prevCubic := some (rvPt N pn c2) } : St ν).after 'C') s'
+        (emitAt s' [.cubic (rvPt N pn c1) (rvPt N pn c2) (rvPt N pn p) (a.map (rv N pn))]) := by
     simp only [step, cmdOf, afterCmd, hc, hal, if_true, hns, Bool.false_and, Bool.false_eq_true, if_false]
     simp [dispatchCmd, edgeCmd, runEdge, hlow, hcmd]
     try simp [hns]
@@ -1380,13 +1394,13 @@ theorem skipWs_space_letter (X : Src) (c : Char) (r : List Char) (hc : isSep c =
   have : isSep ' ' = true := by decide
   simp [Src.skipWs, advWhile_inp, hX, this, hc]
 
-theorem loop_roundtrip (N : Num ν) (pn : ν → List Char) (hp : PrintOK N pn) (na : Nat) :
+theorem loop_print_parse (N : Num ν) (pn : ν → List Char) (hp : TokenOK pn) (na : Nat) :
     ∀ (tr : List (PCall ν)) (inSub : Bool), wellNestedFrom inSub tr = true → AttrsLen na tr →
     ∀ (fuel : Nat) (st : St ν) (X : Src), X.inp = printCalls pn tr → X.inp.length < fuel →
       (inSub = true → st.needEnd = true) →
       (st.needStart = true → st.needEnd = false ∧ inSub = false) →
       (loop N na none fuel st X.skipWs).trace =
-        (if !inSub && st.needEnd then [.end_ false] else []) ++ tr ∧
+        (if !inSub && st.needEnd then [.end_ false] else []) ++ tr.map (rvCall N pn) ∧
       (loop N na none fuel st X.skipWs).outcome = .ok := by
   intro tr
   induction tr with
@@ -1441,7 +1455,7 @@ theorem loop_roundtrip (N : Num ν) (pn : ν → List Char) (hp : PrintOK N pn) 
           (fun h => by rw [hns] at h; cases h)
         refine ⟨?_, by simpa [Result.cons] using ho⟩
         rw [trace_cons, ht, hem]
-        simp
+        simp [rvCall]
     | line p a =>
       cases inSub with
       | false => simp [wellNestedFrom] at hwn
@@ -1466,7 +1480,7 @@ theorem loop_roundtrip (N : Num ν) (pn : ν → List Char) (hp : PrintOK N pn) 
           (fun h => by rw [hns] at h; cases h)
         refine ⟨?_, by simpa [Result.cons] using ho⟩
         rw [trace_cons, ht, hem]
-        simp
+        simp [rvCall]
     | quad k p a =>
       cases inSub with
       | false => simp [wellNestedFrom] at hwn
@@ -1492,7 +1506,7 @@ theorem loop_roundtrip (N : Num ν) (pn : ν → List Char) (hp : PrintOK N pn) 
           (fun h => by rw [hns] at h; cases h)
         refine ⟨?_, by simpa [Result.cons] using ho⟩
         rw [trace_cons, ht, hem]
-        simp
+        simp [rvCall]
     | cubic k1 k2 p a =>
       cases inSub with
       | false => simp [wellNestedFrom] at hwn
@@ -1518,7 +1532,7 @@ theorem loop_roundtrip (N : Num ν) (pn : ν → List Char) (hp : PrintOK N pn) 
           (fun h => by rw [hns] at h; cases h)
         refine ⟨?_, by simpa [Result.cons] using ho⟩
         rw [trace_cons, ht, hem]
-        simp
+        simp [rvCall]
     | end_ close =>
       cases inSub with
       | false => simp [wellNestedFrom] at hwn
@@ -1535,7 +1549,7 @@ theorem loop_roundtrip (N : Num ν) (pn : ν → List Char) (hp : PrintOK N pn) 
           obtain ⟨ht, ho⟩ := ih false hwn halr (fuel + 1) st X hX' hfuel (fun h => by cases h)
             (fun h => by rw [hns0] at h; cases h)
           refine ⟨?_, ho⟩
-          rw [ht]; simp [hne0]
+          rw [ht]; simp [hne0, rvCall]
         | true =>
           have hX' : X.inp = ' ' :: 'Z' :: printCalls pn r := by
             simp [hX, printCalls, printCall]
@@ -1549,8 +1563,28 @@ theorem loop_roundtrip (N : Num ν) (pn : ν → List Char) (hp : PrintOK N pn) 
             (fun _ => ⟨hne, rfl⟩)
           refine ⟨?_, by simpa [Result.cons] using ho⟩
           rw [trace_cons, ht, hem]
-          simp [hne]
+          simp [hne, rvCall]
 
+
+
+theorem rvCall_id (N : Num ν) (pn : ν → List Char) (hv : ∀ x, N.ofLexeme (pn x) = x)
+    (c : PCall ν) : rvCall N pn c = c := by
+  have h : rv N pn = id := funext hv
+  cases c <;> simp [rvCall, rvPt, h]
+
+/-- the round trip with values: if printed numbers read back as themselves the trace is `tr` -/
+theorem loop_roundtrip (N : Num ν) (pn : ν → List Char) (hp : PrintOK N pn) (na : Nat)
+    (tr : List (PCall ν)) (inSub : Bool) (hwn : wellNestedFrom inSub tr = true)
+    (hal : AttrsLen na tr) (fuel : Nat) (st : St ν) (X : Src) (hX : X.inp = printCalls pn tr)
+    (hf : X.inp.length < fuel) (h1 : inSub = true → st.needEnd = true)
+    (h2 : st.needStart = true → st.needEnd = false ∧ inSub = false) :
+    (loop N na none fuel st X.skipWs).trace =
+      (if !inSub && st.needEnd then [.end_ false] else []) ++ tr ∧
+    (loop N na none fuel st X.skipWs).outcome = .ok := by
+  have h := loop_print_parse N pn hp.toTokenOK na tr inSub hwn hal fuel st X hX hf h1 h2
+  have hm : tr.map (rvCall N pn) = tr := by
+    rw [List.map_congr_left (fun c _ => rvCall_id N pn hp.value c)]; simp
+  rw [hm] at h; exact h
 
 set_option linter.unusedSimpArgs false
 
@@ -1781,18 +1815,117 @@ theorem head_debugText (neg : Bool) (d1 : List Char) (f : Option (List Char))
   · exact ⟨c, r ++ (fracL f ++ expL e), by simp [debugText, signL], digit_not_sep hc⟩
   · exact ⟨'-', c :: r ++ (fracL f ++ expL e), by simp [debugText, signL], by decide⟩
 
-/-- `PrintOK` reduces to: every printed number has the shape `-? D+ (. D+)? (e -? D+)?` and reads
-back as the same value. -/
-theorem printOK_of_debugShape (N : Num ν) (pn : ν → List Char)
-    (hshape : ∀ x, ∃ neg d1 f e, pn x = debugText neg d1 f e ∧ ShapeOK d1 f e)
-    (hval : ∀ x, N.ofLexeme (pn x) = x) : PrintOK N pn := by
+/-- every printer whose output has the shape `-? D+ (. D+)? (e -? D+)?` is `TokenOK` -/
+theorem tokenOK_of_debugShape (pn : ν → List Char)
+    (hshape : ∀ x, ∃ neg d1 f e, pn x = debugText neg d1 f e ∧ ShapeOK d1 f e) : TokenOK pn := by
   constructor
   · intro x; obtain ⟨neg, d1, f, e, hx, hs⟩ := hshape x; rw [hx]; exact validF32_debugText _ _ _ _ hs
-  · exact hval
   · intro x; obtain ⟨neg, d1, f, e, hx, hs⟩ := hshape x; rw [hx]; exact head_debugText _ _ _ _ hs
   · intro x rest hb
     obtain ⟨neg, d1, f, e, hx, hs⟩ := hshape x; rw [hx]
     exact lexNumL_debugText _ _ _ _ hs rest hb
 
+/-- `PrintOK` reduces to: every printed number has the shape `-? D+ (. D+)? (e -? D+)?` and reads
+back as the same value. -/
+theorem printOK_of_debugShape (N : Num ν) (pn : ν → List Char)
+    (hshape : ∀ x, ∃ neg d1 f e, pn x = debugText neg d1 f e ∧ ShapeOK d1 f e)
+    (hval : ∀ x, N.ofLexeme (pn x) = x) : PrintOK N pn :=
+  { toTokenOK := tokenOK_of_debugShape pn hshape, value := hval }
+
+
+/-! ### I. The command automaton: implicit repetition, remembered control points -/
+
+/-- what a completed iteration with command `cmd` leaves in the state -/
+def StepKeeps (cmd : Char) : StepOut ν → Prop
+  | .cont st' _ _ =>
+      st'.implicit = nextImplicit cmd ∧ (isCubicCmd cmd = false → st'.prevCubic = none) ∧
+      (isQuadCmd cmd = false → st'.prevQuad = none)
+  | _ => True
+
+theorem after_keeps (st : St ν) (cmd : Char) :
+    (st.after cmd).implicit = nextImplicit cmd ∧
+    (isCubicCmd cmd = false → (st.after cmd).prevCubic = none) ∧
+    (isQuadCmd cmd = false → (st.after cmd).prevQuad = none) := by
+  refine ⟨rfl, ?_, ?_⟩ <;> (intro h; simp [St.after, h])
+
+theorem step_keeps (N : Num ν) (na : Nat) (st : St ν) (s : Src) :
+    StepKeeps (cmdOf st s) (step N na st s) := by
+  unfold step
+  split
+  · trivial
+  · unfold dispatchCmd
+    split
+    · unfold runEdge; split
+      · exact after_keeps _ _
+      · trivial
+    · split
+      · unfold runArc; split
+        · unfold arcEmit; split
+          · exact after_keeps _ _
+          · split
+            · trivial
+            · split
+              · trivial
+              · exact after_keeps _ _
+        · trivial
+      · split
+        · unfold runMove; split
+          · exact after_keeps _ _
+          · trivial
+        · split
+          · exact after_keeps _ _
+          · trivial
+
+/-- an edge command that completes: its parser succeeded, the calls are its calls, the new state
+is its state followed by the bookkeeping `after` -/
+theorem step_edge_inv (N : Num ν) (na : Nat) (st st' : St ν) (s s' : Src) (em : List (Emit ν))
+    (m : PM (EdgeOut ν)) (hm : edgeCmd N na (cmdOf st s) st = some m)
+    (h : step N na st s = .cont st' s' em) :
+    ∃ o, m (afterCmd s) = .ok o s' ∧ em.map Prod.snd = o.1 ∧ st' = o.2.after (cmdOf st s) := by
+  unfold step at h
+  split at h
+  · cases h
+  · unfold dispatchCmd at h
+    rw [hm] at h
+    simp only [runEdge] at h
+    split at h
+    · rename_i o s1 heq
+      cases h
+      exact ⟨o, heq, emitAt_snd _ _, rfl⟩
+    · cases h
+
+theorem cmdS_inv (N : Num ν) (na rel) (st : St ν) (s o s') (h : cmdS N na rel st s = .ok o s') :
+    ∃ c2 p a, o.1 = [.cubic (smoothCtrl N st.cur st.prevCubic) c2 p a] ∧
+      o.2.prevCubic = some c2 ∧ o.2.cur = p := by
+  unfold cmdS at h
+  obtain ⟨c2, s2, _, h⟩ := bind_ok h
+  obtain ⟨e, s3, _, h⟩ := bind_ok h
+  have hp := pure_ok h
+  rw [hp.1]; exact ⟨c2, e.1, e.2, rfl, rfl, rfl⟩
+
+theorem cmdC_inv (N : Num ν) (na rel) (st : St ν) (s o s') (h : cmdC N na rel st s = .ok o s') :
+    ∃ c1 c2 p a, o.1 = [.cubic c1 c2 p a] ∧ o.2.prevCubic = some c2 ∧ o.2.cur = p := by
+  unfold cmdC at h
+  obtain ⟨c1, s1, _, h⟩ := bind_ok h
+  obtain ⟨c2, s2, _, h⟩ := bind_ok h
+  obtain ⟨e, s3, _, h⟩ := bind_ok h
+  have hp := pure_ok h
+  rw [hp.1]; exact ⟨c1, c2, e.1, e.2, rfl, rfl, rfl⟩
+
+theorem cmdT_inv (N : Num ν) (na rel) (st : St ν) (s o s') (h : cmdT N na rel st s = .ok o s') :
+    ∃ p a, o.1 = [.quad (smoothCtrl N st.cur st.prevQuad) p a] ∧
+      o.2.prevQuad = some (smoothCtrl N st.cur st.prevQuad) ∧ o.2.cur = p := by
+  unfold cmdT at h
+  obtain ⟨e, s3, _, h⟩ := bind_ok h
+  have hp := pure_ok h
+  rw [hp.1]; exact ⟨e.1, e.2, rfl, rfl, rfl⟩
+
+theorem cmdQ_inv (N : Num ν) (na rel) (st : St ν) (s o s') (h : cmdQ N na rel st s = .ok o s') :
+    ∃ c p a, o.1 = [.quad c p a] ∧ o.2.prevQuad = some c ∧ o.2.cur = p := by
+  unfold cmdQ at h
+  obtain ⟨c, s1, _, h⟩ := bind_ok h
+  obtain ⟨e, s3, _, h⟩ := bind_ok h
+  have hp := pure_ok h
+  rw [hp.1]; exact ⟨c, e.1, e.2, rfl, rfl, rfl⟩
 
 end Lyon.Parser
